@@ -170,6 +170,64 @@ func c17Main(args []string) error {
 				if cancelled != "" {
 					prog = []string{"PROBE", nonce, "say:3:" + marker, "fdsfd:3", "sleep:60000"}
 				}
+				if cancelled == "openloss" {
+					// an environment of its own is destroyed while one of its calls (an Open, which receives
+					// descriptors) is in flight: that call fails -- and nobody else notices anything
+					<-start
+					t0 := time.Now()
+					o := withTimeout(func() opResult {
+						before := map[int]bool{}
+						for _, c := range childrenOf(os.Getpid()) {
+							before[c] = true
+						}
+						b := container.Builder{Root: root, Mounts: mount.NewDefaultBuilder().WithBind(dirOf(probe), "probe", true).
+							WithTmpfs("w", "").WithTmpfs("tmp", "").FilterNotExist().Mounts}
+						e, err := b.Build()
+						for try := 0; err != nil && try < 3; try++ {
+							time.Sleep(time.Second)
+							e, err = b.Build()
+						}
+						if err != nil {
+							return opResult{R: "setup", Err: err.Error()}
+						}
+						defer e.Destroy()
+						initPid := 0
+						for _, c := range childrenOf(os.Getpid()) {
+							if !before[c] {
+								if b, _ := os.ReadFile(fmt.Sprintf("/proc/%d/cmdline", c)); strings.Contains(string(b), "container_init") {
+									initPid = c
+								}
+							}
+						}
+						if initPid == 0 {
+							return opResult{R: "setup", Err: "init of the new environment not found"}
+						}
+						syscall.Kill(initPid, syscall.SIGSTOP)
+						for k := 0; k < 1000 && !allThreadsStopped(initPid); k++ {
+							time.Sleep(time.Millisecond)
+						}
+						ch := make(chan error, 1)
+						go func() {
+							res, err := e.Open([]container.OpenCmd{{Path: "/w/x", Flag: os.O_CREATE | os.O_WRONLY, Perm: 0644}})
+							for _, x := range res {
+								if x.File != nil {
+									x.File.Close()
+								}
+							}
+							ch <- err
+						}()
+						time.Sleep(50 * time.Millisecond)
+						e.Destroy()
+						if err := <-ch; err != nil {
+							return opResult{R: "err", Err: err.Error()}
+						}
+						return opResult{R: "ok"}
+					})
+					r.Ms = time.Since(t0).Milliseconds()
+					r.R, r.Err = o.R, trimErr(o.Err)
+					res[i] = r
+					return
+				}
 				<-start
 				t0 := time.Now()
 				if cancelled != "" {
@@ -301,8 +359,15 @@ func c17Main(args []string) error {
 			close(start)
 			wg.Wait()
 		}
+		hung := false
 		for _, r := range res {
 			out.Write(r)
+			hung = hung || r.R == "hang"
+		}
+		if hung {
+			// a run that never came back may hold process-wide state (fork lock, environment mutex): what
+			// follows in this process would only repeat the finding
+			break
 		}
 	}
 	return nil
